@@ -165,7 +165,7 @@ class OArr(numpy.ndarray):
     def __rtruediv__(self, o): return as_oarr(o)._bin(self, DIV, "div")
 
     def __array_ufunc__(self, ufunc, method, *inputs, **kw):
-        tbl = {"add": (ADD, "add"), "subtract": (SUB, "sub"), "multiply": (MUL, "mul"), "true_divide": (DIV, "div")}
+        tbl = {"add": (ADD, "add"), "subtract": (SUB, "sub"), "multiply": (MUL, "mul"), "true_divide": (DIV, "div"), "divide": (DIV, "div")}
         if method == "__call__" and ufunc.__name__ in tbl and len(inputs) == 2:
             F, nm = tbl[ufunc.__name__]
             return as_oarr(inputs[0])._bin(inputs[1], F, nm)
